@@ -50,6 +50,13 @@
 (*             resolved, the tracer must not be wired     sh_f.h:120-127   *)
 (*   late      default constructed, then get_promise(): init_if_needed +   *)
 (*             get_promise of the future + charge         sh_f.h:130-145   *)
+(*   shl       default constructed, init_if_needed(), then `f << fn` with  *)
+(*             fn returning a pending future<T>           sh_f.h:197-202   *)
+(*             Fixed = FALSE: the code as found -- operator<< replaces the *)
+(*             future in the state and returns: the tracer is NOT charged, *)
+(*             the pending state is kept alive by the handles only.        *)
+(*             Fixed = TRUE: the repaired operator<< (init_if_needed,      *)
+(*             result_of, `if (pending()) charge`) = the steps of retfut.  *)
 (*                                                                         *)
 (* Variant = "code" is the implementation.  "notracer" (charge takes no    *)
 (* self reference) and "noreset" (the tracer never gives it back) are      *)
@@ -65,9 +72,10 @@ CONSTANTS H,           \* handle threads (strings)
           HCo, HBl, HCb, HPoll,   \* threads allowed to co_await / wait() / subscribe a callback / poll
           MaxCopies,   \* bound: number of handle copies made in a behaviour
           MaxHandles,  \* bound: handles held by one thread at a time
+          Fixed,       \* TRUE: repaired shared_future::operator<< (see mode shl)
           Variant
 
-ASSUME Ctor \in H /\ HCo \subseteq H /\ HBl \subseteq H /\ HCb \subseteq H /\ HPoll \subseteq H
+ASSUME Fixed \in BOOLEAN /\ Ctor \in H /\ HCo \subseteq H /\ HBl \subseteq H /\ HCb \subseteq H /\ HPoll \subseteq H
 
 R == "r"
 N(h, k) == h \o "." \o k
@@ -170,11 +178,14 @@ Setup(m, k) ==
     /\ tref' = IF m \in ChargeModes THEN TrefOn ELSE 0
     /\ tmp' = IF m \in ChargeModes THEN 1 ELSE 0
     /\ vlive' = IF m \in {"fnsync", "setval", "asyncsync"} THEN 1 ELSE 0
-    /\ rpc' = IF m \in {"fn", "retfut", "async"} THEN StartPc(k) ELSE IF m = "late" THEN "nopromise" ELSE "done"
+    /\ rpc' = IF m \in {"fn", "retfut", "async", "shl"} THEN StartPc(k) ELSE IF m = "late" THEN "nopromise" ELSE "done"
+    (* shl as found: operator<< has returned, nothing was charged *)
     /\ pc' = [h \in H |-> IF h # Ctor THEN "idle"
-                          ELSE CASE m \in ChargeModes -> "pre_cas" [] m = "late" -> "null_idle" [] OTHER -> "pre_pload"]
+                          ELSE CASE m \in ChargeModes -> "pre_cas" [] m = "late" -> "null_idle"
+                                 [] m = "shl" /\ ~Fixed -> "idle" [] OTHER -> "pre_pload"]
     /\ cop' = [h \in H |-> IF h # Ctor THEN "none"
-                           ELSE CASE m \in ChargeModes -> "charge" [] m = "late" -> "none" [] OTHER -> "ctor2"]
+                           ELSE CASE m \in ChargeModes -> "charge" [] m = "late" -> "none"
+                                  [] m = "shl" /\ ~Fixed -> "none" [] OTHER -> "ctor2"]
     /\ UNCHANGED <<nxt, cref, copies, vdtor, cur, rest, sp, flag, did, seen, resumes, uaf>>
 
 -----------------------------------------------------------------------------
